@@ -57,6 +57,12 @@ func (re *reentry) enter(ctx context.Context) {
 				pid := eventlogger.PipelineID("pw-" + id)
 				re.b.RegisterPipeline(eventlogger.Pipeline{PipelineID: pid, EventType: "to", NodeIDs: []eventlogger.NodeID{"im", "ik"}})
 				re.b.RemovePipeline("to", pid)
+				// and one that goes away together with its own nodes
+				wm, wk := eventlogger.NodeID("wm-"+id), eventlogger.NodeID("wk-"+id)
+				re.b.RegisterNode(wm, &plainNode{typ: eventlogger.NodeTypeFormatter})
+				re.b.RegisterNode(wk, &plainNode{typ: eventlogger.NodeTypeSink})
+				re.b.RegisterPipeline(eventlogger.Pipeline{PipelineID: pid + "-n", EventType: "to", NodeIDs: []eventlogger.NodeID{wm, wk}})
+				re.b.RemovePipelineAndNodes(context.Background(), "to", pid+"-n")
 				return
 			}
 			re.b.RegisterNode(eventlogger.NodeID(id), &plainNode{typ: eventlogger.NodeTypeFilter})
